@@ -10,6 +10,10 @@ package PVM
 // tab acc/ref/auth: the entry of AccumulateOmegas / RefineOmegas / IsAuthorizedOmegas is called on a fresh
 // OmegaInput; tab d*: the two-instruction program `ecalli id; trap` is run by Host.HostCall with that table,
 // so unknown identifiers take the real dispatch path (getOmega, hostCallException).
+// ctx.fx (optional) describes what fetch can see: {"n":[32]|[], "r":{"has","v"}, "i":{"has","v"}, "x":[[blob..]..] (extrinsic
+// data per work item), "imp":[[pattern id..]..] (import segments per item: byte j of a segment = (7 j + id) mod 251),
+// "p":{"has","host","u","t","j","f","items":[{"s","h","g","a","e","ni","y"}..]}}; a step may carry "probe":[[addr(8), len, kind]..]:
+// before the call the driver records FNV-1a ("fnv") or BLAKE2b ("b2b") of those guest ranges (hash primitives only).
 // One trace record per step: identifiers, the full state before the call and the full state after it.
 
 import (
@@ -21,6 +25,7 @@ import (
 
 	"github.com/New-JAMneration/JAM-Protocol/internal/service_account"
 	"github.com/New-JAMneration/JAM-Protocol/internal/types"
+	"github.com/New-JAMneration/JAM-Protocol/internal/utilities/hash"
 	"github.com/New-JAMneration/JAM-Protocol/internal/verifdrv/vfd"
 )
 
@@ -33,6 +38,12 @@ func hcList(v any) []any {
 		return nil
 	}
 	return v.([]any)
+}
+func hcListOrEmpty(v any) []any {
+	if l := hcList(v); l != nil {
+		return l
+	}
+	return []any{}
 }
 func hcObj(v any) map[string]any {
 	if v == nil {
@@ -290,6 +301,12 @@ func hcBuildCtx(tab string, j map[string]any) *hcEnv {
 		}
 		for c := range ps.Authorizers {
 			ps.Authorizers[c] = make(types.AuthQueue, types.AuthQueueSize)
+			for q := range ps.Authorizers[c] {
+				ps.Authorizers[c][q][0], ps.Authorizers[c][q][31] = byte(c+1), byte(q+1) // distinct from anything a guest supplies
+			}
+		}
+		for v := range ps.ValidatorKeys {
+			ps.ValidatorKeys[v].Ed25519[0] = byte(v + 1)
 		}
 		for c, a := range hcList(pj["assign"]) {
 			if c < len(ps.Assign) {
@@ -323,7 +340,17 @@ func hcBuildCtx(tab string, j map[string]any) *hcEnv {
 		y := x.DeepCopy()
 		sa := ps.ServiceAccounts[self]
 		selfCopy := self
-		ops := []types.OperandOrDeferredTransfer{{DeferredTransfer: &types.DeferredTransfer{SenderID: 7, ReceiverID: self, Balance: 5, GasLimit: 9}}}
+		ops := []types.OperandOrDeferredTransfer{}
+		fx := hcObj(j["fx"])
+		for k := 0; k < vfd.I(fx["o"]); k++ {
+			if k%2 == 0 {
+				ops = append(ops, types.OperandOrDeferredTransfer{DeferredTransfer: &types.DeferredTransfer{SenderID: 7, ReceiverID: self, Balance: types.U64(5 + k), GasLimit: 9}})
+			} else {
+				ops = append(ops, types.OperandOrDeferredTransfer{Operand: &types.Operand{GasLimit: types.Gas(k), Result: types.WorkExecResult{Type: types.WorkExecResultOk, Data: []byte{1, 2, 3}}, AuthOutput: types.ByteSequence{9}}})
+			}
+		}
+		eta = types.Entropy{}
+		copy(eta[:], vfd.Bytes(fx["n"]))
 		env.add = HostCallArgs{
 			GeneralArgs: GeneralArgs{ServiceAccount: &sa, ServiceID: &selfCopy, ServiceAccountState: &x.PartialState.ServiceAccounts, StorageKeyVal: &skv},
 			AccumulateArgs: AccumulateArgs{ResultContextX: x, ResultContextY: y, Timeslot: types.TimeSlot(hcU32(j["t"])), Eta: eta,
@@ -332,9 +359,42 @@ func hcBuildCtx(tab string, j map[string]any) *hcEnv {
 	case "ref":
 		selfCopy := self
 		core := types.CoreIndex(0)
-		idx := uint(0)
-		auth := types.ByteSequence{1, 2, 3, 4, 5}
 		m := IntegratedPVMMap{}
+		fx := hcObj(j["fx"])
+		var idxp *uint
+		if io := hcObj(fx["i"]); vfd.I(io["has"]) == 1 {
+			idx := uint(vfd.I(io["v"]))
+			idxp = &idx
+		}
+		var authp *types.ByteSequence
+		if ro := hcObj(fx["r"]); vfd.I(ro["has"]) == 1 {
+			auth := types.ByteSequence(vfd.Bytes(ro["v"]))
+			authp = &auth
+		}
+		xspecs, xmap := [][]types.ExtrinsicSpec{}, ExtrinsicDataMap{}
+		for _, it := range hcList(fx["x"]) {
+			row := []types.ExtrinsicSpec{}
+			for _, b := range hcList(it) {
+				blob := vfd.Bytes(b)
+				h := hash.Blake2bHash(blob)
+				row = append(row, types.ExtrinsicSpec{Hash: h, Len: types.U32(len(blob))})
+				xmap[h] = ExtrinsicData(blob)
+			}
+			xspecs = append(xspecs, row)
+		}
+		imps := [][]types.ExportSegment{}
+		for _, it := range hcList(fx["imp"]) {
+			row := []types.ExportSegment{}
+			for _, pid := range hcList(it) {
+				var sg types.ExportSegment
+				for q := range sg {
+					sg[q] = byte((7*(q+1) + vfd.I(pid)) % 251)
+				}
+				row = append(row, sg)
+			}
+			imps = append(imps, row)
+		}
+		wp := hcWorkPackage(hcObj(fx["p"]), xspecs)
 		exp := []types.ExportSegment{}
 		for i := 0; i < vfd.I(j["nexp"]); i++ {
 			var s types.ExportSegment
@@ -343,9 +403,9 @@ func hcBuildCtx(tab string, j map[string]any) *hcEnv {
 		}
 		env.add = HostCallArgs{
 			GeneralArgs: GeneralArgs{ServiceID: &selfCopy, ServiceAccountState: &accounts, CoreID: &core},
-			RefineArgs: RefineArgs{WorkItemIndex: &idx, AuthOutput: &auth, ImportSegments: [][]types.ExportSegment{{}},
-				ExportSegmentOffset: uint(vfd.I(j["expoff"])), ExtrinsicDataMap: ExtrinsicDataMap{}, IntegratedPVMMap: m,
-				ExportSegment: exp, TimeSlot: types.TimeSlot(hcU32(j["t"])), Extrinsics: [][]types.ExtrinsicSpec{{}}},
+			RefineArgs: RefineArgs{WorkItemIndex: idxp, WorkPackage: wp, AuthOutput: authp, ImportSegments: imps,
+				ExportSegmentOffset: uint(vfd.I(j["expoff"])), ExtrinsicDataMap: xmap, IntegratedPVMMap: m,
+				ExportSegment: exp, TimeSlot: types.TimeSlot(hcU32(j["t"])), Extrinsics: xspecs},
 		}
 		// inner machines are created by the code under test (machine, then pages), so the driver does not
 		// depend on how IntegratedPVMType is laid out: machine k of the list gets index k
@@ -375,14 +435,85 @@ func hcBuildCtx(tab string, j map[string]any) *hcEnv {
 				}
 			})
 		}
-	default: // auth
-		auth := types.ByteSequence{}
-		env.add = HostCallArgs{RefineArgs: RefineArgs{AuthOutput: &auth}}
+	default: // auth: the work package is all an is-authorized invocation can fetch besides the constants
+		env.add = HostCallArgs{RefineArgs: RefineArgs{WorkPackage: hcWorkPackage(hcObj(hcObj(j["fx"])["p"]), nil)}}
 	}
 	// a (never executed) outer program, as Psi_M installs one
 	p, _ := DeBlobProgramCode([]byte{0, 0, 1, 0, 1})
 	env.add.Program = &p
 	return env
+}
+
+func hcWorkPackage(p map[string]any, xspecs [][]types.ExtrinsicSpec) *types.WorkPackage {
+	if vfd.I(p["has"]) != 1 {
+		return nil
+	}
+	wp := &types.WorkPackage{AuthCodeHost: types.ServiceID(hcU32(p["host"])), Authorization: types.ByteSequence(vfd.Bytes(p["j"])),
+		AuthorizerConfig: types.ByteSequence(vfd.Bytes(p["f"])), Items: []types.WorkItem{}}
+	copy(wp.AuthCodeHash[:], vfd.Bytes(p["u"]))
+	wp.Context.LookupAnchorSlot = types.TimeSlot(hcU32(p["t"]))
+	wp.Context.Anchor[0], wp.Context.StateRoot[0], wp.Context.BeefyRoot[0], wp.Context.LookupAnchor[0] = 1, 2, 3, 4
+	wp.Context.Prerequisites = []types.OpaqueHash{}
+	for k, it := range hcList(p["items"]) {
+		o := it.(map[string]any)
+		w := types.WorkItem{Service: types.ServiceID(hcU32(o["s"])), RefineGasLimit: types.Gas(vfd.FromU64LE(o["g"])),
+			AccumulateGasLimit: types.Gas(vfd.FromU64LE(o["a"])), ExportCount: types.U16(vfd.I(o["e"])), Payload: types.ByteSequence(vfd.Bytes(o["y"])),
+			ImportSegments: make([]types.ImportSpec, vfd.I(o["ni"])), Extrinsic: []types.ExtrinsicSpec{}}
+		copy(w.CodeHash[:], vfd.Bytes(o["h"]))
+		if k < len(xspecs) {
+			w.Extrinsic = xspecs[k]
+		}
+		wp.Items = append(wp.Items, w)
+	}
+	return wp
+}
+
+// encodings of fetch's structured values by the repository's codec (a primitive here: the codec itself is C11's business)
+func (e *hcEnv) fetchAux() map[string]any {
+	aux := map[string]any{"consts": vfd.B(getFetchConstantsData()), "encp": []int{}, "encx": []int{}, "oall": []int{}, "oeach": []any{}}
+	enc := types.NewEncoder()
+	if wp := e.add.RefineArgs.WorkPackage; wp != nil {
+		if b, err := enc.Encode(wp); err == nil {
+			aux["encp"] = vfd.B(b)
+		}
+		if b, err := types.NewEncoder().Encode(&wp.Context); err == nil {
+			aux["encx"] = vfd.B(b)
+		}
+	}
+	if os := e.add.AccumulateArgs.OperandOrDeferredTransfers; len(os) > 0 {
+		all, _ := types.NewEncoder().EncodeUint(uint64(len(os)))
+		each := []any{}
+		for i := range os {
+			b, err := types.NewEncoder().Encode(&os[i])
+			if err != nil {
+				b = nil
+			}
+			all = append(all, b...)
+			each = append(each, vfd.B(b))
+		}
+		aux["oall"], aux["oeach"] = vfd.B(all), each
+	}
+	return aux
+}
+
+func hcProbe(mem *Memory, probes []any) []any {
+	out := []any{}
+	for _, pj := range probes {
+		p := pj.([]any)
+		a, n := vfd.FromU64LE(p[0]), uint64(vfd.I(p[1]))
+		if !isReadable(a, n, *mem) {
+			out = append(out, []int{})
+			continue
+		}
+		b := mem.Read(a, n)
+		if vfd.S(p[2]) == "b2b" {
+			h := hash.Blake2bHash(b)
+			out = append(out, vfd.B(h[:]))
+		} else {
+			out = append(out, hcFNV(b))
+		}
+	}
+	return out
 }
 
 func hcProjMachines(m IntegratedPVMMap) []any {
@@ -632,7 +763,12 @@ func TestHostCalls(t *testing.T) {
 			preCtx := env.project()
 			preY := env.projectY()
 			rec := map[string]any{"ev": "Call", "case": c["id"], "k": k, "grp": c["grp"], "tab": tab, "id": vfd.U64LE(id),
-				"pre": map[string]any{"regs": hcRegs(regs), "gas": vfd.U64LE(uint64(gas)), "acc": preMem.acc, "data": preMem.data(), "ctx": preCtx, "ybless": env.ybless()}}
+				"pre": map[string]any{"regs": hcRegs(regs), "gas": vfd.U64LE(uint64(gas)), "acc": preMem.acc, "data": preMem.data(), "ctx": preCtx, "ybless": env.ybless(),
+					"probe": hcListOrEmpty(st["probe"]), "probed": hcProbe(mem, hcList(st["probe"]))}}
+			if id == 1 {
+				pre := rec["pre"].(map[string]any)
+				pre["fx"], pre["aux"] = hcObj(c["ctx"])["fx"], env.fetchAux()
+			}
 			exit := ""
 			panicked, msg := vfd.Guard(func() {
 				if tab[0] == 'd' {
